@@ -199,19 +199,83 @@ fn run_case(c: &Case) -> CaseResult {
         }
     }
 
-    // (1) noodles' own reader
-    let rb = guard::catch(|| {
-        let mut r = bgzf::io::Reader::new(&file[..]);
-        let mut buf = Vec::new();
-        r.read_to_end(&mut buf).map(|_| buf)
-    });
-    match rb {
-        Err(p) => res.violation = Some((format!("reader-panic:{}", p.sig), format!("reader panicked: {}", p.message))),
-        Ok(Err(e)) => res.violation = Some(("reader-rejects-own-output".into(), format!("bgzf reader fails on the writer's output: {e}"))),
-        Ok(Ok(buf)) => {
-            if buf != data {
-                let at = buf.iter().zip(&data).position(|(a, b)| a != b).unwrap_or(buf.len().min(data.len()));
-                res.violation = Some(("readback-ne-payload".into(), format!("read back {} bytes, wrote {}; first difference at {at}", buf.len(), data.len())));
+    // (1) noodles' own reader, through several reading disciplines (the statement says "reads
+    // back through a BGZF reader"; the cursor model itself is C02's business)
+    let modes: &[&str] = &["read_to_end", "read_until", "read_exact_chunks", "big_reads", "read_to_end@mt"];
+    let first = (c.pseed % modes.len() as u64) as usize;
+    for mode in [modes[0], modes[1 + first % 4]] {
+        if res.violation.is_some() {
+            break;
+        }
+        let mut mrng = Rng::new(c.pseed, 9, 1);
+        let rb = guard::catch(|| -> std::io::Result<Vec<u8>> {
+            use std::io::BufRead;
+            let mut out = Vec::new();
+            match mode {
+                "read_to_end" => {
+                    let mut r = bgzf::io::Reader::new(&file[..]);
+                    r.read_to_end(&mut out)?;
+                }
+                "read_to_end@mt" => {
+                    let mut r = bgzf::io::MultithreadedReader::new(std::io::Cursor::new(file.clone()));
+                    r.read_to_end(&mut out)?;
+                    r.finish()?;
+                }
+                "read_until" => {
+                    let mut r = bgzf::io::Reader::new(&file[..]);
+                    // a delimiter that occurs in the payload (lines cross block boundaries)
+                    let delim = data.get(data.len() / 2).copied().unwrap_or(b'\n');
+                    loop {
+                        let before = out.len();
+                        r.read_until(delim, &mut out)?;
+                        if out.len() == before {
+                            break;
+                        }
+                    }
+                }
+                "read_exact_chunks" => {
+                    let mut r = bgzf::io::Reader::new(&file[..]);
+                    let mut left = data.len();
+                    while left > 0 {
+                        let n = (*mrng.pick(&[1usize, 2, 7, 100, 4096, 65535, 65536, 70_000, 200_000])).min(left);
+                        let at = out.len();
+                        out.resize(at + n, 0);
+                        r.read_exact(&mut out[at..])?;
+                        left -= n;
+                    }
+                    // and nothing may follow
+                    let mut one = [0u8; 1];
+                    if r.read(&mut one)? != 0 {
+                        out.push(one[0]);
+                    }
+                }
+                _ => {
+                    let mut r = bgzf::io::Reader::new(&file[..]);
+                    let mut buf = vec![0u8; *mrng.pick(&[65536usize, 100_000, 131_072])];
+                    let mut guard_iters = 0;
+                    loop {
+                        let n = r.read(&mut buf)?;
+                        if n == 0 {
+                            break;
+                        }
+                        out.extend_from_slice(&buf[..n]);
+                        guard_iters += 1;
+                        if guard_iters > 100_000 {
+                            return Err(std::io::Error::other("verif: read() keeps returning data past the payload"));
+                        }
+                    }
+                }
+            }
+            Ok(out)
+        });
+        match rb {
+            Err(p) => res.violation = Some((format!("reader-panic:{mode}:{}", p.sig), format!("reader panicked ({mode}): {}", p.message))),
+            Ok(Err(e)) => res.violation = Some((format!("reader-rejects-own-output:{mode}"), format!("bgzf reader ({mode}) fails on the writer's output: {e}"))),
+            Ok(Ok(buf)) => {
+                if buf != data {
+                    let at = buf.iter().zip(&data).position(|(a, b)| a != b).unwrap_or(buf.len().min(data.len()));
+                    res.violation = Some((format!("readback-ne-payload:{mode}"), format!("read back {} bytes through {mode}, wrote {}; first difference at {at}", buf.len(), data.len())));
+                }
             }
         }
     }
